@@ -27,6 +27,10 @@ const (
 	vfSWModeMM      = 0 // SetScore(match, mismatch); letters A C G T R Y K M (only equality matters)
 	vfSWModeDNAfull = 1 // built-in EDNAFULL / NUC.4.4; letters A C G T N
 	vfSWModeBlosum  = 2 // built-in BLOSUM62; letters W E I L F
+	// full alphabets of the built-in matrices, scored by the independently transcribed tables of
+	// zz_verif_c09_tables.go (used with concrete flanks around one symbolic residue per sequence)
+	vfSWModeDNAfullAll = 3
+	vfSWModeBlosumAll  = 4
 )
 
 const vfSWNeg = -1000000.0 // "minus infinity" for the reference recurrences (|scores| <= 11*4)
@@ -57,6 +61,10 @@ func vfSWSub(sc vfSWScheme, c1, c2 uint8) float64 {
 			return sc.match
 		}
 		return sc.mismatch
+	case vfSWModeDNAfullAll:
+		return float64(vfC09Ednafull[vfC09Pos(vfC09DnaOrder, c1)][vfC09Pos(vfC09DnaOrder, c2)])
+	case vfSWModeBlosumAll:
+		return float64(vfC09Blosum62[vfC09Pos(vfC09ProtOrder, c1)][vfC09Pos(vfC09ProtOrder, c2)])
 	case vfSWModeDNAfull:
 		// EDNAFULL: identical unambiguous bases 5, different -4, N against a base -2, N/N -1.
 		if c1 == 'N' && c2 == 'N' {
@@ -87,6 +95,10 @@ func vfSWLetterOK(mode int, c uint8) bool {
 		return c == 'A' || c == 'C' || c == 'G' || c == 'T' || c == 'R' || c == 'Y' || c == 'K' || c == 'M'
 	case vfSWModeDNAfull:
 		return c == 'A' || c == 'C' || c == 'G' || c == 'T' || c == 'N'
+	case vfSWModeDNAfullAll:
+		return vfC09Pos(vfC09DnaOrder, c) >= 0 && c < 'a'
+	case vfSWModeBlosumAll:
+		return vfC09Pos(vfC09ProtOrder, c) >= 0 && c < 'a' && c != '*'
 	}
 	return c == 'W' || c == 'E' || c == 'I' || c == 'L' || c == 'F'
 }
